@@ -20,6 +20,7 @@ type FuncReport struct {
 	Unsupported  []string
 	SpecErrors   []string
 	Uncontracted []string
+	Inlined      []string
 	ExtUsed      []string
 	IfaceUsed    []string
 	TrustedUsed  []string
@@ -38,6 +39,7 @@ func (P *Program) VerifyFunc(fn *ssa.Function, ct *Contract, full bool, pathCap 
 	x.uncontracted = map[string]bool{}
 	x.trustedUsed = map[string]bool{}
 	x.ifaceUsed = map[string]bool{}
+	x.inlined = map[string]bool{}
 	rep = &FuncReport{Name: relName(fn), Full: full}
 	defer func() {
 		if r := recover(); r != nil {
@@ -178,6 +180,7 @@ func (P *Program) VerifyFunc(fn *ssa.Function, ct *Contract, full bool, pathCap 
 	rep.Unsupported = x.unsup
 	rep.SpecErrors = x.specErrs
 	rep.Uncontracted = sortedKeys(x.uncontracted)
+	rep.Inlined = sortedKeys(x.inlined)
 	rep.ExtUsed = sortedKeys(x.extUsed)
 	rep.IfaceUsed = sortedKeys(x.ifaceUsed)
 	rep.TrustedUsed = sortedKeys(x.trustedUsed)
